@@ -345,6 +345,11 @@ def unit_containers(unit):
         (b"ab", b"ac"), (b"ab", b"ba"), (bytearray(b"ab"), bytearray(b"ac")),
         (Fraction(1, 2), Fraction(1, 3)), (Decimal("1.5"), Decimal("1.6")), (date(2020, 1, 1), date(2020, 1, 2)), (datetime(2020, 1, 1, 1), datetime(2020, 1, 1, 2)),
         (1 + 2j, 1 + 3j), ("ab", "ba"), (range(3), range(4)),
+        # values that differ in a part a lossy or symmetric element hash drops: microseconds, the two parts of a complex number swapped
+        # or equal, numerator and denominator swapped, the low bit of a big int, the last bit of a float, letter case
+        (datetime(2020, 1, 1, 1, 0, 0, 5), datetime(2020, 1, 1, 1, 0, 0, 6)), (datetime(2020, 1, 1, 1, 0, 0, 0), datetime(2020, 1, 1, 1, 0, 0, 999999)),
+        (1 + 2j, 2 + 1j), (2 + 2j, 7 + 7j), (1 - 1j, -1 + 1j), (Fraction(1, 2), Fraction(2, 1)), (2 ** 70, 2 ** 70 + 1), (1.0, 1.0000000000000002), ("Ab", "aB"),
+        (Decimal("1.5"), Decimal("-1.5")), (b"\x00a", b"a\x00"), ((1, 2), (2, 1)), (frozenset({1}), frozenset({2})),
     ]
     fillers = [7, "f", None]
     for old, new in pairs:
